@@ -297,6 +297,36 @@ func TestVerifLabels(t *testing.T) {
 			}
 		}
 	}
+	// converters with two type-only outputs (same or different type, same or
+	// different subtype): whichever output vertex the parameter is fed from must
+	// carry the value produced under that vertex's own label
+	var typeOnly []label
+	for _, l := range U {
+		if l.name == "" {
+			typeOnly = append(typeOnly, l)
+		}
+	}
+	for _, p := range U {
+		for _, o1 := range typeOnly {
+			for _, o2 := range typeOnly {
+				if o1 == o2 {
+					continue
+				}
+				seed := label{"", "A", ""}
+				if thorough {
+					seed = label{"", "B", ""}
+				}
+				if o1 == seed || o2 == seed {
+					continue
+				}
+				sc := scenario{param: p, inputs: []label{{"seed", seed.typ, ""}}, convs: [][2][]label{{{seed}, {o1, o2}}}}
+				n++
+				if bad := runScenario(sc); len(bad) > 0 {
+					report(sc, bad)
+				}
+			}
+		}
+	}
 	t.Logf("label scenarios run: %d, failing: %d", n, failures)
 }
 
